@@ -157,6 +157,32 @@ Theorem C06_eigval_tangent_conjugate :
 Proof. move=> R cj cjK D n A M x e HA HM He Heig Hn; exact: (eigval_tangent_conj cjK D HA HM He Heig Hn). Qed.
 Print Assumptions C06_eigval_tangent_conjugate.
 
+(* T8: the dense path in the COMPLEX Hermitian case, distinct or coinciding eigenvalues (Y unitary, e real, the masked degeneracy map
+   of T5): for a cotangent with Y^H G Hermitian on the masked pairs - in particular a real diagonal: the phases of the columns - the
+   code's result (R + R^H)/2 reproduces the real-part pairing for EVERY Hermitian tangent dA *)
+From XV Require Import Proofs.SymeigDenseConj.
+Theorem C06_dense_backward_adjoint_conjugate :
+  forall (F : fieldType) (cj : {rmorphism F -> F}), involutive cj ->
+  forall (D : derivation F), (forall a, D (cj a) = cj (D a)) ->
+  forall n (A Y : 'M[F]_n) (e : 'rV[F]_n),
+  map_mx cj A^T = A -> map_mx cj Y^T *m Y = 1%:M -> Y *m map_mx cj Y^T = 1%:M -> A *m Y = Y *m diag_mx e ->
+  (forall i, cj (e 0 i) = e 0 i) ->
+  forall half : F, half + half = 1 ->
+  forall mask : rel 'I_n, (forall i, mask i i) -> (forall i j, mask i j = mask j i) ->
+  (forall i j, ~~ mask i j -> e 0 i != e 0 j) ->
+  forall (G : 'M[F]_n) (ge : 'rV[F]_n), (forall i, cj (ge 0 i) = ge 0 i) ->
+  (forall i j, mask i j -> (map_mx cj Y^T *m G) i j = cj ((map_mx cj Y^T *m G) j i)) ->
+  let Fm : 'M[F]_n := \matrix_(i, j) (if mask i j then 0 else (e 0 j - e 0 i)^-1) in
+  let FW : 'M[F]_n := \matrix_(i, j) (Fm i j * (map_mx cj Y^T *m G) i j) in
+  let R := Y *m FW *m map_mx cj Y^T + Y *m diag_mx ge *m map_mx cj Y^T in
+  Re cj half (\tr (map_mx cj G^T *m dmx D Y) + \sum_i ge 0 i * D (e 0 i)) =
+  Re cj half (\tr (map_mx cj (half *: (R + map_mx cj R^T))^T *m dmx D A)).
+Proof.
+move=> F cj cjK D Dcj n A Y e HA H1 H2 He Hr half Hh mask Hmr Hms Hd G ge Hge Hq /=.
+exact: (@degen_symeig_backward_adjoint_conj F cj cjK D Dcj n A Y e HA H1 H2 He Hr half Hh mask Hmr Hms Hd G ge Hge Hq).
+Qed.
+Print Assumptions C06_dense_backward_adjoint_conjugate.
+
 (* non-vacuity: a genuinely degenerate spectrum (A = 1, e = (1, 1)) with the full mask meets every hypothesis of T5 *)
 Example C06_degenerate_hypotheses_satisfiable :
   let A : 'M[rat]_2 := 1%:M in let Y : 'M[rat]_2 := 1%:M in let e : 'rV[rat]_2 := \row_i 1 in
